@@ -14,6 +14,7 @@ from __future__ import annotations
 import ast
 
 from . import terms as T
+from . import astnorm
 from .evalr import Evaluator, Facts, FALL, Frame, _fixed_items, UNROLL_BOUND, _elem_meta
 from .loader import AnalysisError, PKG
 
@@ -130,13 +131,18 @@ class _Walker:
         self.qual = '%s.%s' % (module, fname)
         self.depth = 0
         self.nloops = 0
+        # representation-level normal form (sa/astnorm.py): helpers only this side has are spliced in, list accumulators
+        # that end in ''.join become string accumulators
+        mi = program.get_module(module)
+        helpers = {n: f.node for n, f in mi.functions.items() if n != fname and n not in shared and isinstance(f.node, ast.FunctionDef)}
+        self.node, self.notes = astnorm.normalise(self.fi.node, helpers)
 
     def run(self):
         env = {}
         for i_, q in enumerate(self.fi.params):
             ty = self.param_types[i_] if i_ < len(self.param_types) else None
             env[q] = T.sym('$' + q, type=ty) if ty else T.sym('$' + q)
-        recs, env, facts = self.walk(self.fi.node.body, env, Facts())
+        recs, env, facts = self.walk(self.node.body, env, Facts())
         return recs
 
     def _trial(self, pending, env, facts):
@@ -186,7 +192,7 @@ class _Walker:
                 exp = _exposed(s.body + s.orelse, set(tnames))
                 if isinstance(s, ast.While):
                     exp |= _reads(s.test)
-                outside = _reads_outside(self.fi.node, s)
+                outside = _reads_outside(self.node, s)
                 carried = [n for n in written if n not in tnames and (n in exp or n in outside)]
                 init = [env.get(n) for n in carried]
                 d = self.depth
@@ -278,6 +284,13 @@ def _minbytes(t):
         c, a, b = t[2][1], t[2][2], t[2][3]
         x = hexdigits(b)
         if x is not None and a == T.cat(T.const('0'), b) and c == T.truth(T.mod(T.len_(b), T.const(2))):
+            return T.raw_op('MINBYTES', x, T.const(1))
+    if T.is_op(t, 'FROMHEX') and (T.is_op(t[2], 'ZFILL') or (T.is_op(t[2], 'RJUST') and len(t[2]) == 5 and t[2][4] == T.const('0'))):
+        # h.zfill(len(h) + len(h) % 2): pad to the next even length
+        h, w = t[2][2], t[2][3]
+        x = hexdigits(h)
+        ln = T.len_(h)
+        if x is not None and T.is_op(w, 'ADD') and len(w) == 4 and set(w[2:]) == {ln, T.mod(ln, T.const(2))}:
             return T.raw_op('MINBYTES', x, T.const(1))
     if T.is_op(t, 'SER') and t[4] == T.const('big'):
         x, n = t[2], t[3]
